@@ -1316,10 +1316,11 @@ DATA_RUNS = ['.a.b', '.a.b.c', '.a.b', '.a[class=b]', '[class=a].b', '[class="a 
              '.a.b[title=x t=2]', '[class=a class=b]']
 # An alias that carries an EXPLICITLY EMPTY class value followed by more class data (`KEY[class=""].a`, `KEY[class={}].a`, or a definition that
 # writes `[class=""]` on an inner alias which then receives classes) over a definition with two or more top-level elements that declare
-# `class` without a value: OFF -- genuine defect of the unchanged library found by this class (reported, not repaired here):
-# expand('cols[class=""].nv', {'snippets': {'cols': 'div[class]+section[class]'}}) gives class="nv" / class="nv nv", the definition in
+# `class` without a value.  This class found a genuine defect of the library, repaired by 7e3c7a3 (merge_value handed out the alias's own
+# empty token list, which then grew from one top-level element to the next): before the repair
+# expand('cols[class=""].nv', {'snippets': {'cols': 'div[class]+section[class]'}}) gave class="nv" / class="nv nv", the definition in
 # place (`div[class][class=""].nv+section[class][class=""].nv`) gives class="nv" on both.
-EMPTY_CLASS_VALUE_ON_ALIAS = False
+EMPTY_CLASS_VALUE_ON_ALIAS = True
 DATA_RUNS_EMPTY_CLASS = ['[class=""].a', "[class=''].a.b", '[class={}].a', '[class="" t=1].a']
 _EMPTY_CLASS_DECL = ('[class=""]', "[class='']")
 RUN_FORMS = [('alone', '%s', '%s'), ('in-parent', 'ul>%s', 'ul>%s'), ('repeat-in-parent', 'ul>%s*2', 'ul>(%s)*2'),
@@ -2000,9 +2001,9 @@ def run(ctx):
                        'reads the flag as Python does, bool(value): the definition in its place carries the alias data directly after the element name when it is true; '
                        'the final-tree oracle of the colliding attributes (value written on the alias is the one every top-level element carries) applies unchanged.  The '
                        'extracted model takes the flag as a bool (harness/markup_util.enc_config encodes bool(value)); one in four of these cases goes through it, the '
-                       'colliding ones of the generated tables through the oracle only.  OFF (EMPTY_CLASS_VALUE_ON_ALIAS, genuine difference found on the unchanged '
-                       'library): an alias that carries an explicitly empty class value followed by more class data (KEY[class=""].a, KEY[class={}].a, a definition '
-                       'writing [class=""] on an inner alias) -- not generated; '
+                       'colliding ones of the generated tables through the oracle only.  Also generated (EMPTY_CLASS_VALUE_ON_ALIAS; this class found the defect repaired by 7e3c7a3): '
+                       'an alias that carries an explicitly empty class value followed by more class data (KEY[class=""].a, KEY[class={}].a, a definition '
+                       'writing [class=""] on an inner alias); '
                        'TERMINATION IS AN OUTCOME: every call into the implementation -- expand along every route, markup.parse for final trees (also the '
                        'calls the GENERATORS make to see where a collision can be written), resolve_snippets in the resolver oracle -- runs under a CPU-time '
                        'limit of 10 s that fires a BaseException (cannot be swallowed by `except Exception`) and under an address-space bound (RLIMIT_AS = size '
